@@ -18,7 +18,7 @@ def numPrims : Prims Goat.Num.Val where
       | .lt => t (Goat.Num.lt a b) | .lte => t (Goat.Num.lte a b)
       | .gt => t (Goat.Num.lt b a) | .gte => t (Goat.Num.lte b a)
       | .eq => t (Goat.Num.eqNum a b) | .neq => !t (Goat.Num.eqNum a b))
-  assignTo v old := Goat.Num.assign v old.tag
+  assignTo v old := Goat.Num.reassign v old.tag
   ofBool b := Goat.Num.mkBool b
   truth v := v.toInt != 0
 
